@@ -108,6 +108,8 @@ pub enum InMinter {
     None,
     User(u8),
     Garbage,
+    /// well-formed XDR of a value that is not an address
+    NonAddress(u8),
 }
 
 #[derive(Serialize, Deserialize, Clone, Debug, PartialEq, Eq, Hash)]
